@@ -154,7 +154,7 @@ Proof.
   unfold gtf_attrs_text in *. cbn [map]. unfold gtf_pairs in *. cbn [flat_map].
   destruct a as [|kv' a'].
   - cbn [map join flat_map]. rewrite app_nil_r. apply field_text_pairs.
-  - rewrite join_cons2. rewrite IH. rewrite field_text_pairs.
+  - cbn [map] in *. rewrite join_cons2. rewrite IH. rewrite field_text_pairs.
     unfold pairs_text. rewrite map_app. rewrite join_app; [reflexivity| |].
     + unfold attr_items_ok in Hkv. destruct (value_items (snd kv)); [contradiction|discriminate].
     + inversion Ha as [|? ? Hkv' _]; subst. unfold attr_items_ok in Hkv'. cbn [flat_map].
@@ -204,8 +204,8 @@ Lemma push_items_array : forall k m l0 xs, ~ In k (map fst m) -> (2 <= length l0
 Proof.
   intros k m l0 xs Hk. revert l0. induction xs as [|x xs IH]; intros l0 Hl.
   - cbn. now rewrite app_nil_r.
-  - cbn [map fold_left]. unfold push_pair at 2. cbn [fst snd]. rewrite map_push_last by exact Hk.
-    cbn [value_push]. rewrite IH by (rewrite app_length; cbn; lia). now rewrite <- app_assoc.
+  - cbn [map fold_left]. change (push_pair (m ++ [(k, VArray l0)]) (k, x)) with (map_push (m ++ [(k, VArray l0)]) k x).
+    rewrite map_push_last by exact Hk. cbn [value_push]. rewrite IH by (rewrite app_length; cbn; lia). now rewrite <- app_assoc.
 Qed.
 
 Lemma push_items : forall k m xs, ~ In k (map fst m) -> xs <> [] ->
@@ -213,7 +213,9 @@ Lemma push_items : forall k m xs, ~ In k (map fst m) -> xs <> [] ->
 Proof.
   intros k m xs Hk Hne. destruct xs as [|x [|y xs]]; [contradiction| |].
   - cbn [map fold_left]. unfold push_pair. cbn [fst snd]. now rewrite map_push_fresh.
-  - cbn [map fold_left]. unfold push_pair at 2 3. cbn [fst snd]. rewrite map_push_fresh by exact Hk.
+  - cbn [map fold_left]. change (push_pair m (k, x)) with (map_push m k x).
+    rewrite map_push_fresh by exact Hk.
+    change (push_pair (m ++ [(k, VString x)]) (k, y)) with (map_push (m ++ [(k, VString x)]) k y).
     rewrite map_push_last by exact Hk. cbn [value_push].
     rewrite push_items_array by (exact Hk || (cbn; lia)). reflexivity.
 Qed.
@@ -273,3 +275,168 @@ Example gtf_malformed_owned_panics :
   | _ => False
   end.
 Proof. vm_compute. split; reflexivity. Qed.
+
+(* ---- whole records ---- *)
+Lemma escape_chars : forall x c, In c (gtf_escape x) -> c = 92 \/ In c x.
+Proof.
+  induction x as [|b x IH]; intros c H; [destruct H|]. rewrite gtf_escape_cons in H.
+  apply in_app_or in H. destruct H as [H|H].
+  - destruct ((b =? 92) || (b =? 34)).
+    + destruct H as [E|[E|[]]]; [now left|right; now left].
+    + destruct H as [E|[]]. right. now left.
+  - destruct (IH c H) as [E|E]; [now left|right; now right].
+Qed.
+
+Definition gtf_attr_ok (kv : list N * value) : Prop :=
+  key_ok (fst kv) /\ value_items (snd kv) <> [] /\
+  Forall (fun x => ~ In 10 x /\ ~ In 13 x) (value_items (snd kv)).
+
+Lemma key_no_ws : forall k c, key_ok k -> is_ascii_ws c = true -> ~ In c k.
+Proof. intros k c [_ H] Hc Hin. rewrite Forall_forall in H. specialize (H c Hin). congruence. Qed.
+
+Lemma attrs_text_avoid : forall a c, Forall gtf_attr_ok a -> In c [10; 13] -> ~ In c (gtf_attrs_text a).
+Proof.
+  intros a c H Hc Hin.
+  assert (Hc' : c = 10 \/ c = 13) by (cbn [In] in Hc; intuition).
+  unfold gtf_attrs_text in Hin. apply In_join in Hin.
+  destruct Hin as [E|(p & Hp & Hcp)]; [destruct Hc'; subst; discriminate|].
+  apply in_map_iff in Hp. destruct Hp as (kv & E & Hkv). subst p.
+  rewrite Forall_forall in H. destruct (H kv Hkv) as (Hk & _ & Hv).
+  unfold gtf_field_text in Hcp. apply In_join in Hcp.
+  destruct Hcp as [E|(p & Hp & Hcp)]; [destruct Hc'; subst; discriminate|].
+  apply in_map_iff in Hp. destruct Hp as (x & E & Hx). subst p.
+  rewrite Forall_forall in Hv. destruct (Hv x Hx) as [H10 H13].
+  rewrite item_text_shape in Hcp. apply in_app_or in Hcp. destruct Hcp as [Hcp|Hcp].
+  - revert Hcp. apply key_no_ws; [exact Hk|]. destruct Hc'; subst; reflexivity.
+  - destruct Hcp as [E|[E|Hcp]]; try (destruct Hc'; subst; discriminate).
+    apply in_app_or in Hcp. destruct Hcp as [Hcp|Hcp].
+    + apply escape_chars in Hcp. destruct Hcp as [E|Hcp]; [destruct Hc'; subst; discriminate|].
+      destruct Hc'; subst; tauto.
+    + destruct Hcp as [E|[E|[]]]; destruct Hc'; subst; discriminate.
+Qed.
+
+Lemma strip_cr_tabbed : forall fs, strip_cr (tabbed fs) = tabbed fs.
+Proof.
+  intro fs. destruct fs as [|f0 fs0]; [reflexivity|].
+  destruct (@exists_last _ (f0 :: fs0)) as (l & a & E); [discriminate|]. rewrite E.
+  unfold tabbed. rewrite flat_map_app. cbn [flat_map]. rewrite app_nil_r, app_assoc.
+  rewrite strip_cr_app by discriminate. reflexivity.
+Qed.
+
+Definition gtf_wf (fmt : N -> list N) (prs : list N -> option N) (r : feature) : Prop :=
+  (~ In 9 (f_seqid r) /\ ~ In 10 (f_seqid r) /\ ~ In 35 (firstn 1 (f_seqid r)))
+  /\ (~ In 9 (f_source r) /\ ~ In 10 (f_source r))
+  /\ (~ In 9 (f_type r) /\ ~ In 10 (f_type r))
+  /\ 1 <= f_start r <= u64_max /\ 1 <= f_end r <= u64_max
+  /\ (forall x, f_score r = Some x ->
+        prs (fmt x) = Some x /\ ~ In 9 (fmt x) /\ ~ In 10 (fmt x) /\ fmt x <> [46])
+  /\ Forall gtf_attr_ok (f_attrs r) /\ NoDup (map fst (f_attrs r)).
+
+Lemma single_avoid' : forall (c d : N), c <> d -> ~ In c [d].
+Proof. intros c d H [E|[]]. congruence. Qed.
+
+Lemma gtf_columns_clean : forall fmt prs r, gtf_wf fmt prs r ->
+  Forall (fun f => ~ In 9 f /\ ~ In 10 f) (gtf_columns fmt r).
+Proof.
+  intros fmt prs r ((Hs9 & Hs10 & _) & Hso & Hty & _ & _ & Hsc & _). unfold gtf_columns.
+  repeat apply Forall_cons; try apply Forall_nil.
+  - now split.
+  - exact Hso.
+  - exact Hty.
+  - split; apply fmt_dec_avoids; lia.
+  - split; apply fmt_dec_avoids; lia.
+  - destruct (f_score r) as [x|] eqn:E; cbn [score_text].
+    + destruct (Hsc x eq_refl) as (_ & H9 & H10 & _). now split.
+    + split; apply single_avoid'; lia.
+  - destruct (f_strand r); cbn [strand_text]; split; apply single_avoid'; lia.
+  - destruct (f_phase r) as [[]|]; cbn [phase_text]; split; apply single_avoid'; lia.
+Qed.
+
+Lemma gtf_write_ok : forall fmt r line, gtf_write fmt r = Ok line ->
+  f_strand r <> SUnknown /\ line = tabbed (gtf_columns fmt r) ++ gtf_attrs_text (f_attrs r).
+Proof.
+  intros fmt r line H. unfold gtf_write in H.
+  destruct (f_strand r); try discriminate; (split; [discriminate|symmetry; congruence]).
+Qed.
+
+Lemma gtf_strand_text : forall s, s <> SUnknown -> gtf_parse_strand (strand_text s) = Ok s.
+Proof. destruct s; intro H; try reflexivity. contradiction. Qed.
+
+Lemma gtf_phase_text : forall p, parse_phase (phase_text p) = option_map Ok p.
+Proof. destruct p as [[]|]; reflexivity. Qed.
+
+Lemma gtf_score_text : forall fmt prs sc,
+  (forall x, sc = Some x -> prs (fmt x) = Some x /\ fmt x <> [46]) ->
+  parse_score prs (score_text fmt sc) = option_map Ok sc.
+Proof.
+  intros fmt prs [x|] H; [|reflexivity]. destruct (H x eq_refl) as [H1 H2].
+  unfold parse_score, score_text. rewrite bytes_eqb_neq by exact H2. now rewrite H1.
+Qed.
+
+Definition gtf_expected (r : feature) : lazy_feature :=
+  {| l_seqid := f_seqid r; l_source := f_source r; l_type := f_type r;
+     l_start := Ok (f_start r); l_end := Ok (f_end r); l_score := option_map Ok (f_score r);
+     l_strand := Ok (f_strand r); l_phase := option_map Ok (f_phase r);
+     l_attrs := (gtf_canon_attrs (f_attrs r), None) |}.
+
+Lemma gtf_hash_head : forall a rest, ~ In 35 (firstn 1 a) -> gtf_starts_with_hash (a ++ 9 :: rest) = false.
+Proof.
+  intros [|b a] rest H; [reflexivity|]. cbn [app gtf_starts_with_hash]. apply N.eqb_neq.
+  intro E. apply H. cbn. now left.
+Qed.
+
+(* A written GTF record line reads back field for field: every byte string as attribute value
+   (double quotes and backslashes included, no LF/CR), multi-values in order. *)
+Theorem gtf_record_roundtrip : forall fmt prs r line,
+  gtf_wf fmt prs r -> gtf_write fmt r = Ok line ->
+  gtf_read prs (line ++ [10]) = GRec (gtf_expected r).
+Proof.
+  intros fmt prs r line Hwf Hw. pose proof (gtf_columns_clean fmt prs r Hwf) as Hcols.
+  destruct Hwf as ((Hs9 & Hs10 & Hs35) & Hso & Hty & Hst & Hen & Hsc & Hat & Hnd).
+  apply gtf_write_ok in Hw. destruct Hw as [Hstrand Hl]. subst line.
+  assert (H10 : ~ In 10 (tabbed (gtf_columns fmt r) ++ gtf_attrs_text (f_attrs r))).
+  { intro Hin. apply in_app_or in Hin. destruct Hin as [Hin|Hin].
+    - apply In_tabbed in Hin. destruct Hin as [E|(f & Hf & Hc)]; [discriminate|].
+      rewrite Forall_forall in Hcols. destruct (Hcols f Hf) as [_ Hn]. now apply Hn.
+    - revert Hin. apply attrs_text_avoid; [exact Hat|cbn; tauto]. }
+  unfold gtf_read, first_line. rewrite take_until_app by exact H10.
+  assert (Hcr : strip_cr (tabbed (gtf_columns fmt r) ++ gtf_attrs_text (f_attrs r))
+                = tabbed (gtf_columns fmt r) ++ gtf_attrs_text (f_attrs r)).
+  { destruct (gtf_attrs_text (f_attrs r)) eqn:E.
+    - rewrite app_nil_r. apply strip_cr_tabbed.
+    - rewrite <- E. rewrite strip_cr_app by (rewrite E; discriminate).
+      rewrite (strip_cr_no13 (gtf_attrs_text (f_attrs r))); [reflexivity|].
+      apply attrs_text_avoid; [exact Hat|cbn; tauto]. }
+  rewrite Hcr. cbv zeta.
+  assert (Hh : gtf_starts_with_hash (tabbed (gtf_columns fmt r) ++ gtf_attrs_text (f_attrs r)) = false).
+  { unfold gtf_columns, tabbed. cbn [flat_map]. rewrite <- !app_assoc. cbn [app].
+    now apply gtf_hash_head. }
+  rewrite Hh.
+  change 8%nat with (length (gtf_columns fmt r)).
+  rewrite take_fields_tabbed.
+  2:{ eapply Forall_impl; [|exact Hcols]. intros f [H9 _]. exact H9. }
+  unfold gtf_columns, gtf_lazy_of_columns, gtf_expected.
+  rewrite !parse_pos_fmt by assumption.
+  rewrite gtf_strand_text by exact Hstrand. rewrite gtf_phase_text.
+  rewrite gtf_attrs_roundtrip.
+  - rewrite (gtf_score_text fmt prs (f_score r)); [reflexivity|].
+    intros x E. destruct (Hsc x E) as (H1 & _ & _ & H4). now split.
+  - eapply Forall_impl; [|exact Hat]. intros kv (Hk & _). exact Hk.
+  - eapply Forall_impl; [|exact Hat]. intros kv (_ & Hi & _). exact Hi.
+  - exact Hnd.
+Qed.
+
+(* owned record (through the unwrap) of a written line *)
+Theorem gtf_record_roundtrip_owned : forall fmt prs r line,
+  gtf_wf fmt prs r -> gtf_write fmt r = Ok line ->
+  exists l, gtf_read prs (line ++ [10]) = GRec l /\
+    gtf_owned l = Ok {| f_seqid := f_seqid r; f_source := f_source r; f_type := f_type r;
+                        f_start := f_start r; f_end := f_end r; f_score := f_score r;
+                        f_strand := f_strand r; f_phase := f_phase r;
+                        f_attrs := gtf_canon_attrs (f_attrs r) |}.
+Proof.
+  intros fmt prs r line Hwf Hw. exists (gtf_expected r).
+  split; [eapply gtf_record_roundtrip; eassumption|].
+  unfold gtf_owned, gtf_expected, owned_of_lazy. cbn [l_start l_end l_score l_strand l_phase l_attrs l_seqid l_source l_type fst snd].
+  destruct (f_score r), (f_phase r); reflexivity.
+Qed.
